@@ -31,6 +31,18 @@ def main():
             seen.add(rp)
             path = os.path.join(VERIF, rp)
             r0, out0 = replay(f["property"], path, wt)
+            if r0 != 1 and f.get("commit"):
+                # on the original tree an *earlier* defect can stop the history before the recorded one is
+                # reached: the tree right before the repair is the one that must show it
+                wt2 = tempfile.mkdtemp(prefix="virocon-before-")
+                os.rmdir(wt2)
+                subprocess.run(["git", "-C", "/repo", "worktree", "add", "--detach", wt2, f["commit"] + "^"], check=True, capture_output=True)
+                try:
+                    r0, out0 = replay(f["property"], path, wt2)
+                    print(f"    (judged on {f['commit']}^, the tree right before the repair)")
+                finally:
+                    subprocess.run(["git", "-C", "/repo", "worktree", "remove", "--force", wt2], capture_output=True)
+                    shutil.rmtree(wt2, ignore_errors=True)
             r1, out1 = replay(f["property"], path, "/repo")
             ok = (r0 == 1) and ((r1 == 0) if f["status"] == "fixed" else (r1 == 1))
             bad += not ok
